@@ -206,6 +206,8 @@ class Report:
         self.outside = []
         self.vacuity = []
         self.violations = []      # (key, description, replay path)
+        self._vkeys = set()
+        self.dup_violations = 0
         self.known_hits = []
         self.inconclusive = []
         self.cross = dict(queries=0, z3_old_s=0.0, cvc5_s=0.0)
@@ -234,8 +236,15 @@ class Report:
     def violation(self, key, what, replay_path):
         if key in self.known:
             self.known_hits.append((key, what))
+        elif key in self._vkeys:
+            self.dup_violations += 1         # same role again: reported once
         else:
+            self._vkeys.add(key)
             self.violations.append((key, what, replay_path))
+
+    def seen(self, key):
+        """has this violation role been reported already (lets checks skip further replays)"""
+        return key in self._vkeys
 
     def inconc(self, msg):
         self.inconclusive.append(msg)
